@@ -2059,7 +2059,7 @@ def register_extractors(R, H, PAD):
     def pops_post(E, v, o):
         return blocks_padded(E, v["result"], o["__fs__"], o["feature"], {})
 
-    # FINDING: with exactly ONE tree in total (one population holding one tree) `max(*chain.from_iterable(...))` receives a single int and
+    # defect found here and FIXED in /repo (known_findings.jsonl): with exactly ONE tree in total (one population holding one tree) `max(*chain.from_iterable(...))` receives a single int and
     # raises TypeError("'int' object is not iterable") instead of returning the (1, 1, L) block -- replayed natively, see the report;
     # the variant "1-population-of-1-tree" keeps the obligation PopulationsFeatureExtractor._get_impl/exc/unexpected-TypeError failing
     R.add(f"{FEX}:PopulationsFeatureExtractor._get_impl", prop="C10",
